@@ -15,6 +15,9 @@
 //	mpmix   multipart uploads mixing UploadPart and UploadPartCopy (whole / ranged
 //	        source) per part, and the same part number written twice through either API
 //	big     a 3-chunk object (2 MiB + 5) with ranges around the chunk boundaries
+//	bdel    ONE batch-delete request listing every ordered pair / triple of keys of
+//	        mixed depth (top-level, nested, same name at both depths, missing keys),
+//	        Quiet on/off, from four starting bucket states
 //	del     every small bucket tree x every set of keys named in a batch delete
 //	        (and every single DELETE): the namespace afterwards is contents minus
 //	        exactly the named keys
@@ -37,7 +40,7 @@ import (
 
 func Main() {
 	mc.Main("C28", "exploration",
-		"complete products: mixed-API multipart uploads (part sets of size 2..3 of {1,2,3} x {UploadPart, UploadPartCopy whole, UploadPartCopy ranged} per part x ascending/descending order; same part written twice x API pair); part-number sets (<=3 of 10 boundary numbers, quick <=2) x upload order x full read + all ranges; single PUT lengths 0..8 x every range of the grammar {s-e, s-, -n}; streaming-signed PUT chunk size {1, 65536} x lengths; copy of single/multipart objects, UploadPartCopy x source ranges; 3-chunk object x boundary ranges; bucket trees (subsets of 6 keys, <=3) x batch-delete key sets (<=2 named keys of 7) and single deletes; distinct = (kind, input class, outcome)",
+		"complete products: mixed-API multipart uploads (part sets of size 2..3 of {1,2,3} x {UploadPart, UploadPartCopy whole, UploadPartCopy ranged} per part x ascending/descending order; same part written twice x API pair); part-number sets (<=3 of 10 boundary numbers, quick <=2) x upload order x full read + all ranges; single PUT lengths 0..8 x every range of the grammar {s-e, s-, -n}; streaming-signed PUT chunk size {1, 65536} x lengths; copy of single/multipart objects, UploadPartCopy x source ranges; 3-chunk object x boundary ranges; ordered batch deletes (every ordered pair/triple of 6 mixed-depth keys in one request x 4 bucket states x Quiet); bucket trees (subsets of 6 keys, <=3) x batch-delete key sets (<=2 named keys of 7) and single deletes; distinct = (kind, input class, outcome)",
 		run)
 }
 
@@ -61,6 +64,9 @@ type Case struct {
 	Delete []string `json:"delete,omitempty"` // del: keys named
 	Single bool     `json:"single,omitempty"` // del: one DELETE request instead of a batch
 	Writes []Write  `json:"writes,omitempty"` // mpmix: part writes in order
+	State  []string `json:"state,omitempty"`  // bdel: keys the bucket holds (real top-level and nested keys)
+	Keys   []string `json:"keys,omitempty"`   // bdel: keys listed in the request, in this order
+	Quiet  bool     `json:"quiet,omitempty"`  // bdel
 }
 
 // Write is one write of a part through one of the two APIs.
@@ -84,6 +90,11 @@ func newEnv() *env {
 		mc.Fatal("PutBucket: %d %s", resp.Status, resp.Body)
 	}
 	e.AddCollection(bucket)
+	br := &s3sign.Req{Method: "PUT", Host: host, Path: "/" + bdBucket}
+	if resp := e.Do(br); resp.Status != 200 {
+		mc.Fatal("PutBucket %s: %d %s", bdBucket, resp.Status, resp.Body)
+	}
+	e.AddCollection(bdBucket)
 	return e
 }
 
@@ -642,6 +653,140 @@ func (e *env) bigCase(r *mc.Run, c Case) []verdict {
 var delUniverse = []string{"a", "a/b", "a/b/c", "ab", "b", "a/bc"}
 var delNames = []string{"a", "a/b", "a/b/c", "ab", "b", "a/bc", "zz"}
 
+// ---- ordered batch deletes over keys of mixed depth ---------------------------------------
+
+const bdBucket = "bd"
+
+// readme / photos/readme share a name at two depths; zz and photos/zz never exist.
+var bdUniverse = []string{"readme", "photos/readme", "photos/a", "zebra", "zz", "photos/zz"}
+var bdStates = [][]string{
+	{"readme", "photos/readme", "photos/a"},
+	{"readme", "photos/a"},
+	{"readme", "zebra", "photos/readme", "photos/a"},
+	{"photos/readme", "photos/a"},
+}
+
+func (e *env) bdReq(method, key string, q []s3sign.KV, body []byte) s3env.Resp {
+	r := &s3sign.Req{Method: method, Host: host, Path: "/" + bdBucket, Query: q, Body: body}
+	if key != "" {
+		r.Path += "/" + key
+	}
+	return e.Do(r)
+}
+
+func depthOf(k string) string {
+	if strings.Contains(k, "/") {
+		return "nested"
+	}
+	return "top"
+}
+
+func (e *env) bdelCase(r *mc.Run, c Case) []verdict {
+	// the bucket is emptied at the filer between cases
+	for _, top := range []string{"readme", "photos", "zebra", "zz"} {
+		e.RemoveAll("/buckets/" + bdBucket + "/" + top)
+	}
+	if left := e.Snapshot("/buckets/" + bdBucket); len(left) > 0 {
+		mc.Fatal("bucket %s is not empty before the case: %v", bdBucket, left)
+	}
+	for _, k := range c.State {
+		if resp := e.bdReq("PUT", k, nil, []byte("data:"+k)); resp.Status != 200 {
+			return []verdict{{"put-fails:len=small", fmt.Sprintf("PUT %s: status %d", k, resp.Status)}}
+		}
+	}
+	var b strings.Builder
+	b.WriteString("<Delete>")
+	if c.Quiet {
+		b.WriteString("<Quiet>true</Quiet>")
+	}
+	for _, k := range c.Keys {
+		fmt.Fprintf(&b, "<Object><Key>%s</Key></Object>", k)
+	}
+	b.WriteString("</Delete>")
+	resp := e.bdReq("POST", "", []s3sign.KV{{K: "delete"}}, []byte(b.String()))
+	listed := map[string]bool{}
+	var shape []string
+	for _, k := range c.Keys {
+		listed[k] = true
+		shape = append(shape, depthOf(k))
+	}
+	order := strings.Join(shape, ">")
+	var vs []verdict
+	outcome := "exact"
+	if resp.Status != 200 {
+		outcome = fmt.Sprintf("status-%d", resp.Status)
+		vs = append(vs, verdict{"batch-delete-fails:order=" + order, fmt.Sprintf("state %v, keys %v: status %d %.200s", c.State, c.Keys, resp.Status, resp.Body)})
+	}
+	for _, k := range c.State {
+		got := e.bdReq("GET", k, nil, nil)
+		still := got.Status == 200 && string(got.Body) == "data:"+k
+		switch {
+		case listed[k] && still:
+			// which listed keys precede it?
+			before := "first"
+			for _, q := range c.Keys {
+				if q == k {
+					break
+				}
+				before = "after-" + depthOf(q)
+			}
+			outcome = "keeps-listed"
+			vs = append(vs, verdict{fmt.Sprintf("batch-delete-keeps-listed-key:key=%s:%s", depthOf(k), before),
+				fmt.Sprintf("bucket %v, one POST ?delete listing %v (quiet=%v): listed key %q is still readable", c.State, c.Keys, c.Quiet, k)})
+		case !listed[k] && !still:
+			same := "other-name"
+			for q := range listed {
+				if q[strings.LastIndex(q, "/")+1:] == k[strings.LastIndex(k, "/")+1:] {
+					same = "same-name-as-a-listed-key"
+				}
+			}
+			outcome = "removes-unlisted"
+			vs = append(vs, verdict{fmt.Sprintf("batch-delete-removes-unlisted-key:victim=%s:%s:order=%s", depthOf(k), same, order),
+				fmt.Sprintf("bucket %v, one POST ?delete listing %v (quiet=%v): unlisted key %q is gone (GET status %d)", c.State, c.Keys, c.Quiet, k, got.Status)})
+		}
+	}
+	// the response names every listed key exactly once (Deleted or Error); in quiet mode only errors are listed
+	if resp.Status == 200 {
+		var dr struct {
+			Deleted []struct {
+				Key string `xml:"Key"`
+			} `xml:"Deleted"`
+			Errors []struct {
+				Key string `xml:"Key"`
+			} `xml:"Error"`
+		}
+		if err := xml.Unmarshal(resp.Body, &dr); err != nil {
+			vs = append(vs, verdict{"batch-delete-response-unparsable", fmt.Sprintf("%v: %.200s", err, resp.Body)})
+		} else {
+			n := map[string]int{}
+			for _, d := range dr.Deleted {
+				n[d.Key]++
+			}
+			for _, d := range dr.Errors {
+				n[d.Key]++
+			}
+			for k, cnt := range n {
+				if !listed[k] {
+					vs = append(vs, verdict{"batch-delete-response-names-unlisted-key", fmt.Sprintf("keys %v: response names %q", c.Keys, k)})
+				} else if cnt > 1 {
+					vs = append(vs, verdict{"batch-delete-response-names-key-twice", fmt.Sprintf("keys %v: response names %q %d times", c.Keys, k, cnt)})
+				}
+			}
+			if !c.Quiet {
+				for _, k := range c.Keys {
+					if n[k] == 0 {
+						vs = append(vs, verdict{"batch-delete-response-omits-key:key=" + depthOf(k), fmt.Sprintf("keys %v: response names neither Deleted nor Error for %q: %.300s", c.Keys, k, resp.Body)})
+					}
+				}
+			} else if len(dr.Deleted) > 0 {
+				vs = append(vs, verdict{"batch-delete-quiet-lists-deleted", fmt.Sprintf("keys %v quiet: response lists %d Deleted", c.Keys, len(dr.Deleted))})
+			}
+		}
+	}
+	e.kase(r, fmt.Sprintf("bdel|state=%d|order=%s|quiet=%v|%s", len(c.State), order, c.Quiet, outcome))
+	return vs
+}
+
 func (e *env) delCase(r *mc.Run, c Case) []verdict {
 	pfx := e.fresh("d") + "/"
 	for _, k := range c.Tree {
@@ -807,6 +952,31 @@ func enumerate(r *mc.Run) []Case {
 				Case{Kind: "mpmix", Writes: []Write{{2, a}, {1, "copy"}, {2, b}}})
 		}
 	}
+	// ordered batch deletes: every ordered pair (and triple) of distinct keys of the
+	// mixed-depth universe in ONE request, from each starting state, Quiet off/on
+	// (quick: triples only from the first state, Quiet off)
+	for si, st := range bdStates {
+		for _, quiet := range []bool{false, true} {
+			for n := 2; n <= 3; n++ {
+				if n == 3 && r.Quick() && (si != 0 || quiet) {
+					continue
+				}
+				mc.Sequences(len(bdUniverse), n, n, func(ix []int) bool {
+					seen := map[int]bool{}
+					var ks []string
+					for _, x := range ix {
+						if seen[x] {
+							return true
+						}
+						seen[x] = true
+						ks = append(ks, bdUniverse[x])
+					}
+					cases = append(cases, Case{Kind: "bdel", State: st, Keys: ks, Quiet: quiet})
+					return true
+				})
+			}
+		}
+	}
 	maxTree, maxNamed := 3, r.Pick(1, 2)
 	mc.Subsets(len(delUniverse), func(mask int) bool {
 		var tree []string
@@ -856,6 +1026,8 @@ func (e *env) exec(r *mc.Run, c Case) []verdict {
 		vs = e.bigCase(r, c)
 	case "del":
 		vs = e.delCase(r, c)
+	case "bdel":
+		vs = e.bdelCase(r, c)
 	default:
 		mc.Fatal("unknown case kind %q", c.Kind)
 	}
